@@ -188,6 +188,19 @@ def child_main():
         shared = adv.Builder()
     for item in job['jobs']:
         doc = item['doc']
+        if item.get('churn_batch'):
+            # a batch of models of one document is parsed, built and released together, then a batch of the other
+            # document is parsed and built: fresh models land on the addresses of released ones
+            import gc  # pylint: disable=import-outside-toplevel
+            for phase_doc in item['churn_batch']:
+                models = [_quiet(shell.parse, DOCS[phase_doc]()) for _ in range(item['size'])]
+                for fct in models:
+                    evt = _quiet(build_event, phase_doc, fct, named_cfg(item['cfg'], phase_doc),
+                                 dict(job['env'], churn_batch=True), None, shared)
+                    print(json.dumps(evt), flush=True)
+                del models, fct
+                gc.collect()
+            continue
         if item.get('churn'):
             # parse, build, drop: the parsed model is garbage before the next one is created (address reuse)
             fct = _quiet(shell.parse, DOCS[doc]())
@@ -222,7 +235,8 @@ def run_children(jobs_by_env):
         err = proc.stderr.read()
         proc.wait()
         lines = [ln for ln in out.splitlines() if ln.startswith('{')]
-        if proc.returncode != 0 or len(lines) != len(jobs):
+        expected = sum(len(j['churn_batch']) * j['size'] if j.get('churn_batch') else 1 for j in jobs)
+        if proc.returncode != 0 or len(lines) != expected:
             raise core.MachineryError(f'child interpreter failed ({proc.returncode}): {err[-800:]}')
         events.extend(json.loads(ln) for ln in lines)
     return events
@@ -297,6 +311,8 @@ def check_c08(tier, seed):
     for k in range(24 if tier == 'quick' else 120):
         doc = 'A' if k % 2 == 0 else 'A2'
         jobs.append({'doc': doc, 'desc': named_cfg('mts' if k % 3 else 'named', doc), 'order': None, 'churn': True})
+    jobs.append({'churn_batch': ['A', 'A2', 'A', 'A2'], 'size': 12 if tier == 'quick' else 40, 'cfg': 'mts', 'doc': 'A',
+                 'desc': named_cfg('mts', 'A'), 'order': None})
     # text that is not in Unicode normal form C (hash must be the MD5 of the UTF-8 bytes as they are)
     for text in ('Zoe\u0308 A\u030a', 'Unit: \u212b \u2126 \u212a', 'caf\u00e9 \u1e9b\u0323'):
         jobs.append({'doc': 'A', 'desc': dict(named_cfg('mts', 'A'), copyright=text, creator='by ' + text), 'order': None})
